@@ -9,7 +9,8 @@
 (*                                                                         *)
 (* row: id, prog <<[kind, parent, children, steps <<[cl_id, cl_layer]>>]>>,*)
 (*  cfg [show_skipped, dry, retry (scenario_autoretry: a failing scenario   *)
-(*  runs a second time)], sw [show_skipped_always] (userdata switch of the *)
+(*  runs a second time), fault_kbd (the hook faults raise                  *)
+(*  KeyboardInterrupt)], sw [show_skipped_always] (userdata switch of the *)
 (*  reporter), end [escaped, status, step_status, hook_failed] (FINAL  *)
 (*  statuses as recorded: the status classes are computed here),           *)
 (*  hooks_raised <<[name, el, pos]>> / cleanups_raised <<cid>> (the hook / *)
@@ -34,8 +35,14 @@ CleanupRaised(r, el) == \E p \in DOMAIN r.prog[el].steps :
                            LET st == r.prog[el].steps[p] IN st.cl_id # 0 /\ st.cl_layer \in {"", "scenario"} /\ st.cl_id \in RaisedCids(r)
 OwnHookRaised(r, el) == \E k \in DOMAIN r.hooks_raised :
                            r.hooks_raised[k].el = el /\ r.hooks_raised[k].name \notin {"before_step", "after_step"}
+\* final status of an element: the recorded one (of the scenario object that ran); a scenario one of whose own hooks
+\* raised HAS errored whatever a cached status says (not asked under scenario_autoretry -- a later attempt may pass -- and
+\* for KeyboardInterrupt faults, which run_hook does not handle)
+EffStatus(r, el) == IF /\ r.prog[el].kind = "scenario" /\ OwnHookRaised(r, el) /\ ~r.cfg.retry /\ ~r.cfg.fault_kbd
+                       /\ r.end.status[el] \notin FailedOrError
+                    THEN "hook_error" ELSE r.end.status[el]
 ModelOf(r) ==
-   [prog |-> r.prog, status |-> r.end.status, steps |-> r.end.step_status,
+   [prog |-> r.prog, status |-> [el \in DOMAIN r.prog |-> EffStatus(r, el)], steps |-> r.end.step_status,
     \* run_hook stored the HOOK-ERROR message on the element: the public attribute hook_failed says so; with
     \* scenario_autoretry the message of an earlier attempt stays (Scenario.run resets hook_failed, not error_message)
     hookmsg |-> [el \in DOMAIN r.prog |-> r.end.hook_failed[el] \/ (r.cfg.retry /\ OwnHookRaised(r, el))],
